@@ -266,6 +266,7 @@ class FakePool:
         return fut
 
 
+MAX_EXPIRED_WAITS = 2
 DEFAULT_EXECUTOR_WORKERS = 5  # min(32, (os.cpu_count() or 1) + 4) on a one-CPU machine
 
 
@@ -390,6 +391,7 @@ class World:
         self.pending_tasks: List[FakeTask] = []
         self.cur_future: Optional[FakeFuture] = None
         self.in_flight: List[FakeFuture] = []  # started and not finished, pool-run futures (not tasks)
+        self.expired_waits = 0
         self.entered_contexts: Dict[int, FakeFuture] = {}
         self.queued: List[FakeFuture] = []  # handed to a pool whose workers are all busy
         self.default_pool: Optional[FakePool] = None
@@ -470,8 +472,19 @@ class World:
         import concurrent.futures as cf
 
         c = self.c
-        if timeout is not None and timeout != 0:
-            raise HarnessError("a wait with a positive timeout is not modelled")
+        if timeout is not None and timeout != 0 and any(not getattr(f, "finished", True) for f in fs):
+            # a bounded wait: node functions may run for any length of time, so the timeout can expire with nothing finished
+            # (at most MAX_EXPIRED_WAITS times per path - afterwards the nodes are assumed to make progress)
+            if self.expired_waits < MAX_EXPIRED_WAITS and c.choose(2, "timeout_expires"):
+                self.expired_waits += 1
+                if via == "async":
+                    self.start_pending_tasks()  # the caller yielded to the event loop meanwhile
+                already = {f for f in fs if getattr(f, "finished", False)}
+                self.event("wait-timeout", via, tuple(getattr(f, "label", None) for f in sorted(set(fs) - already, key=lambda f: getattr(f, "uid", 0))))
+                for f in already:
+                    self.observed_future(f)
+                return already, set(fs) - already
+            timeout = None
         # futures the code under test completed by itself (concurrent.futures.Future().set_result(...)) are plain finished
         # futures: a wait returns them at once
         foreign = {f for f in fs if not isinstance(f, FakeFuture)}
